@@ -21,13 +21,19 @@ func CloneNode(node ast.Node) ast.Node {
 	switch n := node.(type) {
 
 	case *ast.Assignment:
-		variables := make([]ast.Expression, len(n.Lhs))
-		for i, v := range n.Lhs {
-			variables[i] = CloneExpression(v)
+		var variables []ast.Expression
+		if n.Lhs != nil {
+			variables = make([]ast.Expression, len(n.Lhs))
+			for i, v := range n.Lhs {
+				variables[i] = CloneExpression(v)
+			}
 		}
-		values := make([]ast.Expression, len(n.Rhs))
-		for i, v := range n.Rhs {
-			variables[i] = CloneExpression(v)
+		var values []ast.Expression
+		if n.Rhs != nil {
+			values = make([]ast.Expression, len(n.Rhs))
+			for i, v := range n.Rhs {
+				values[i] = CloneExpression(v)
+			}
 		}
 		return ast.NewAssignment(ClonePosition(n.Position), variables, n.Type, values)
 
@@ -42,8 +48,7 @@ func CloneNode(node ast.Node) ast.Node {
 		return ast.NewBlock(ClonePosition(n.Position), nodes)
 
 	case *ast.Break:
-		label := CloneExpression(n.Label).(*ast.Identifier)
-		return ast.NewBreak(ClonePosition(n.Position), label)
+		return ast.NewBreak(ClonePosition(n.Position), cloneIdentifier(n.Label))
 
 	case *ast.Case:
 		var expressions []ast.Expression
@@ -78,8 +83,7 @@ func CloneNode(node ast.Node) ast.Node {
 		return ast.NewConst(ClonePosition(n.Position), idents, typ, values, n.Index)
 
 	case *ast.Continue:
-		label := CloneExpression(n.Label).(*ast.Identifier)
-		return ast.NewContinue(ClonePosition(n.Position), label)
+		return ast.NewContinue(ClonePosition(n.Position), cloneIdentifier(n.Label))
 
 	case *ast.Defer:
 		return ast.NewDefer(ClonePosition(n.Position), CloneExpression(n.Call))
@@ -136,19 +140,11 @@ func CloneNode(node ast.Node) ast.Node {
 		}
 		return ast.NewForRange(ClonePosition(n.Position), assignment, body, els)
 
-	case *ast.Func:
-		var ident *ast.Identifier
-		if n.Ident != nil {
-			ident = ast.NewIdentifier(ClonePosition(n.Ident.Position), n.Ident.Name)
-		}
-		typ := CloneExpression(n.Type).(*ast.FuncType)
-		return ast.NewFunc(ClonePosition(n.Position), ident, typ, CloneNode(n.Body).(*ast.Block), n.DistFree, n.Format)
-
 	case *ast.Go:
 		return ast.NewGo(ClonePosition(n.Position), CloneExpression(n.Call))
 
 	case *ast.Goto:
-		return ast.NewGoto(ClonePosition(n.Position), CloneExpression(n.Label).(*ast.Identifier))
+		return ast.NewGoto(ClonePosition(n.Position), cloneIdentifier(n.Label))
 
 	case *ast.If:
 		var init ast.Node
@@ -184,7 +180,11 @@ func CloneNode(node ast.Node) ast.Node {
 		return imp
 
 	case *ast.Label:
-		return ast.NewLabel(ClonePosition(n.Position), CloneExpression(n.Ident).(*ast.Identifier), CloneNode(n.Statement))
+		var statement ast.Node
+		if n.Statement != nil {
+			statement = CloneNode(n.Statement)
+		}
+		return ast.NewLabel(ClonePosition(n.Position), cloneIdentifier(n.Ident), statement)
 
 	case *ast.Package:
 		var nn = make([]ast.Node, 0, len(n.Declarations))
@@ -194,7 +194,21 @@ func CloneNode(node ast.Node) ast.Node {
 		return ast.NewPackage(ClonePosition(n.Position), n.Name, nn)
 
 	case *ast.Raw:
-		return ast.NewRaw(ClonePosition(n.Position), n.Marker, n.Tag, CloneNode(n.Text).(*ast.Text))
+		var text *ast.Text
+		if n.Text != nil {
+			text = CloneNode(n.Text).(*ast.Text)
+		}
+		return ast.NewRaw(ClonePosition(n.Position), n.Marker, n.Tag, text)
+
+	case *ast.Return:
+		var values []ast.Expression
+		if n.Values != nil {
+			values = make([]ast.Expression, len(n.Values))
+			for i, v := range n.Values {
+				values[i] = CloneExpression(v)
+			}
+		}
+		return ast.NewReturn(ClonePosition(n.Position), values)
 
 	case *ast.Select:
 		var text *ast.Text
@@ -243,27 +257,6 @@ func CloneNode(node ast.Node) ast.Node {
 			}
 		}
 		return ast.NewStatements(ClonePosition(n.Position), nodes)
-
-	case *ast.StructType:
-		var fields []*ast.Field
-		if n.Fields != nil {
-			fields = make([]*ast.Field, len(n.Fields))
-			for i, field := range n.Fields {
-				var idents []*ast.Identifier
-				if field.Idents != nil {
-					idents = make([]*ast.Identifier, len(field.Idents))
-					for j, ident := range field.Idents {
-						idents[j] = CloneExpression(ident).(*ast.Identifier)
-					}
-				}
-				var typ ast.Expression
-				if field.Type != nil {
-					typ = CloneExpression(field.Type)
-				}
-				fields[i] = ast.NewField(idents, typ, field.Tag)
-			}
-		}
-		return ast.NewStructType(ClonePosition(n.Position), fields)
 
 	case *ast.Switch:
 		var init ast.Node
@@ -318,7 +311,12 @@ func CloneNode(node ast.Node) ast.Node {
 		for _, n := range n.Nodes {
 			nn = append(nn, CloneNode(n))
 		}
-		return ast.NewTree(n.Path, nn, n.Format)
+		tree := ast.NewTree(n.Path, nn, n.Format)
+		tree.Position = ClonePosition(n.Position)
+		return tree
+
+	case *ast.TypeDeclaration:
+		return ast.NewTypeDeclaration(ClonePosition(n.Position), cloneIdentifier(n.Ident), CloneExpression(n.Type), n.IsAliasDeclaration)
 
 	case *ast.URL:
 		var value = make([]ast.Node, len(n.Value))
@@ -383,12 +381,15 @@ func CloneExpression(expr ast.Expression) ast.Expression {
 		expr2 = ast.NewChanType(ClonePosition(e.Pos()), e.Direction, CloneExpression(e.ElementType))
 
 	case *ast.CompositeLiteral:
-		keyValues := make([]ast.KeyValue, len(e.KeyValues))
-		for i, kv := range e.KeyValues {
-			keyValues[i].Key = CloneExpression(kv.Key)
-			keyValues[i].Value = CloneExpression(kv.Value)
+		var keyValues []ast.KeyValue
+		if e.KeyValues != nil {
+			keyValues = make([]ast.KeyValue, len(e.KeyValues))
+			for i, kv := range e.KeyValues {
+				keyValues[i].Key = CloneExpression(kv.Key)
+				keyValues[i].Value = CloneExpression(kv.Value)
+			}
 		}
-		return ast.NewCompositeLiteral(ClonePosition(e.Pos()), CloneExpression(e.Type), keyValues)
+		expr2 = ast.NewCompositeLiteral(ClonePosition(e.Pos()), CloneExpression(e.Type), keyValues)
 
 	case *ast.Default:
 		expr2 = ast.NewDefault(ClonePosition(e.Position), CloneExpression(e.Expr1), CloneExpression(e.Expr2))
@@ -399,8 +400,15 @@ func CloneExpression(expr ast.Expression) ast.Expression {
 			// Ident must be nil for a function literal, but clone it anyway.
 			ident = ast.NewIdentifier(ClonePosition(e.Ident.Position), e.Ident.Name)
 		}
-		typ := CloneExpression(e.Type).(*ast.FuncType)
-		expr2 = ast.NewFunc(ClonePosition(e.Position), ident, typ, CloneNode(e.Body).(*ast.Block), false, e.Format)
+		var typ *ast.FuncType
+		if e.Type != nil {
+			typ = CloneExpression(e.Type).(*ast.FuncType)
+		}
+		var body *ast.Block
+		if e.Body != nil {
+			body = CloneNode(e.Body).(*ast.Block)
+		}
+		expr2 = ast.NewFunc(ClonePosition(e.Position), ident, typ, body, e.DistFree, e.Format)
 
 	case *ast.FuncType:
 		var parameters []*ast.Parameter
@@ -439,6 +447,9 @@ func CloneExpression(expr ast.Expression) ast.Expression {
 	case *ast.MapType:
 		expr2 = ast.NewMapType(ClonePosition(e.Pos()), CloneExpression(e.KeyType), CloneExpression(e.ValueType))
 
+	case *ast.Placeholder:
+		expr2 = ast.NewPlaceholder()
+
 	case *ast.Render:
 		n := ast.NewRender(ClonePosition(e.Position), e.Path)
 		if e.Tree != nil {
@@ -456,6 +467,27 @@ func CloneExpression(expr ast.Expression) ast.Expression {
 		expr2 = ast.NewSlicing(ClonePosition(e.Position), CloneExpression(e.Expr), CloneExpression(e.Low),
 			CloneExpression(e.High), CloneExpression(e.Max), e.IsFull)
 
+	case *ast.StructType:
+		var fields []*ast.Field
+		if e.Fields != nil {
+			fields = make([]*ast.Field, len(e.Fields))
+			for i, field := range e.Fields {
+				var idents []*ast.Identifier
+				if field.Idents != nil {
+					idents = make([]*ast.Identifier, len(field.Idents))
+					for j, ident := range field.Idents {
+						idents[j] = CloneExpression(ident).(*ast.Identifier)
+					}
+				}
+				var typ ast.Expression
+				if field.Type != nil {
+					typ = CloneExpression(field.Type)
+				}
+				fields[i] = ast.NewField(idents, typ, field.Tag)
+			}
+		}
+		expr2 = ast.NewStructType(ClonePosition(e.Position), fields)
+
 	case *ast.TypeAssertion:
 		expr2 = ast.NewTypeAssertion(ClonePosition(e.Position), CloneExpression(e.Expr), CloneExpression(e.Type))
 
@@ -471,7 +503,18 @@ func CloneExpression(expr ast.Expression) ast.Expression {
 	return expr2
 }
 
-// ClonePosition returns a copy of position pos.
+// cloneIdentifier returns a copy of ident, or nil if ident is nil.
+func cloneIdentifier(ident *ast.Identifier) *ast.Identifier {
+	if ident == nil {
+		return nil
+	}
+	return CloneExpression(ident).(*ast.Identifier)
+}
+
+// ClonePosition returns a copy of position pos, or nil if pos is nil.
 func ClonePosition(pos *ast.Position) *ast.Position {
+	if pos == nil {
+		return nil
+	}
 	return &ast.Position{Line: pos.Line, Column: pos.Column, Start: pos.Start, End: pos.End}
 }
